@@ -66,7 +66,7 @@ LIMIT_KEYS = {"names": "max_names_per_connection", "rules": "max_match_rules_per
               "completed": "max_completed_connections", "peruser": "max_connections_per_user",
               "replies": "max_replies_per_connection", "maxmsg": "max_message_size", "reply_timeout": "reply_timeout",
               "maxfds": "max_message_unix_fds", "pending_fd_timeout": "pending_fd_timeout",
-              "start_timeout": "service_start_timeout", "pending": "max_pending_service_starts"}
+              "start_timeout": "service_start_timeout", "pending": "max_pending_service_starts", "auth_timeout": "auth_timeout"}
 
 
 def gids_of(uid):
@@ -146,6 +146,10 @@ class ImplRun:
         raw = bytes(cl.buf[:n]); del cl.buf[:n]
         return raw
 
+    def _pop_peek(self, cl):
+        n = wiregen.message_length(cl.buf)
+        return None if n is None or len(cl.buf) < n else n
+
     def _barrier(self, cid, got, timeout=10.0):
         """send a Ping to the bus and read until its reply; everything before it goes to `got`.
         Returns False when the connection turned out to be closed."""
@@ -170,10 +174,24 @@ class ImplRun:
                 continue
             if cl.eof or not ok:
                 return False
+            if getattr(self, "eof_unreliable", False) and cid != 0 and time.time() - t0 > 0.3:
+                # while a program started by the daemon is being babysat, the babysitter process holds copies of all
+                # the daemon's descriptors (dbus-spawn-unix.c forks without closing them), so a client the daemon has
+                # dropped sees no end-of-file. The daemon serves every readable socket on each turn of its loop: if the
+                # control connection gets two answers while this connection's earlier Ping stays unanswered, the
+                # daemon is no longer reading it.
+                self._ctl_sync(2)
+                cl._fill(0.05)
+                if self._pop_peek(cl) is None and not cl.eof:
+                    self._ctl_sync(1)
+                    cl._fill(0.05)
+                    if self._pop_peek(cl) is None:
+                        return False
+                continue
             left = timeout - (time.time() - t0)
             if left <= 0:
                 raise DaemonStalled("connection %d got no answer from the bus within %.0f s; daemon stderr: %s" % (cid, timeout, self.d.stderr()[-1500:]))
-            cl._fill(left)
+            cl._fill(min(left, 0.31) if getattr(self, "eof_unreliable", False) else left)
 
     def _ctl_sync(self, n=2):
         """round trips through bus_dispatch on the control connection: every deferred action of the
